@@ -33,9 +33,11 @@
      DefTree.descend), ITS get_identifier() (any node kind), looked up from the nearest table (the
      method's table, then the root table, then the parent classes' and the `uses` tables: a miss is
      Outside when the document has a parent or a `uses`); under a dot: the left operand as above, the
-     right operand needs the eval type of the left one: Outside.  Class symbol -> a CLASS item in THIS
-     document; Func / Proc -> FUNCTION, Field -> FIELD in get_uri_for_class(class of the table) (an
-     ERROR when that is not a stem); any other symbol type, or no symbol: no item.
+     right operand needs the eval type of the left one: Outside.  The item's uri is ALWAYS
+     get_uri_for_class(for_class_or_module of the table the symbol was found in): Class symbol -> a CLASS
+     item (the requested document when that name is not a stem -- the code since 6242e0e; before, always
+     the requested document, also for a class found in another file's table); Func / Proc -> FUNCTION,
+     Field -> FIELD (an ERROR when that is not a stem); any other symbol type, or no symbol: no item.
      `self` is a Class symbol: a cursor on `self` prepares a class item called "self".
    The tables are those of the full annotation (root_table_of false): prepare_type_hierarchy analyses
    the document in full and stores the table in the document info, where the walkers find it (the
@@ -92,7 +94,7 @@ Inductive ikind := IClass | IFunc | IField.      (* SymbolKind::CLASS / FUNCTION
 Record item := mkItem {
   i_name : str;         (* TypeHierarchyItem.name *)
   i_kind : ikind;
-  i_stem : str;         (* file stem of TypeHierarchyItem.uri *)
+  i_uri : str;          (* TypeHierarchyItem.uri, as the file stem of the document it names *)
   i_sel : range;        (* selection_range *)
   i_range : range       (* range *)
 }.
@@ -102,9 +104,16 @@ Inductive res := RErr | RFuel | ROk (l : list item).
 
 (* ---------- (b) prepare_type_hierarchy ---------- *)
 
+(* get_uri_for_class(cls).unwrap_or(requested uri) *)
+Definition class_uri (ws : wsT) (stem cls : str) : str :=
+  match doc_of ws (upper cls) with Some d => fst d | None => stem end.
+
 Definition item_for (ws : wsT) (stem cls : str) (a : asym) : res :=
   match a_kind a with
-  | KClass => ROk [mkItem (a_name a) IClass stem (a_sel a) (a_range a)]
+  | KClass =>
+      (* since 6242e0e: get_uri_for_class(class) -- the file that declares the class --, the requested
+         document when the class is not indexed by name *)
+      ROk [mkItem (a_name a) IClass (class_uri ws stem cls) (a_sel a) (a_range a)]
   | KFunc | KProc =>
       match doc_of ws (upper cls) with
       | Some d => ROk [mkItem (a_name a) IFunc (fst d) (a_sel a) (a_range a)]
@@ -177,7 +186,7 @@ Definition member_item (ws : wsT) (it : item) (k : str) : list item :=
 
 (* get_symbol_table_for_uri_def_only(item.uri) . get_class() *)
 Definition class_of_item (ws : wsT) (it : item) : option str :=
-  match doc_of ws (upper (i_stem it)) with
+  match doc_of ws (upper (i_uri it)) with
   | Some d => t_cls (root_of d)
   | None => None
   end.
